@@ -421,6 +421,16 @@ def run_convert(scn):
                                     and not re.fullmatch(r"[dbh][0-9a-fA-F_xz]+|s[dbh][0-9a-fA-F_xz]+", x))
                 if undeclared:
                     V("undeclared_identifier", "design #%d wrapper" % di, "identifier(s) %s used but never declared in the second netlist" % undeclared[:4])
+                # every signal of the wrapper is its own net: no input port is assigned, no net is driven by two continuous assignments
+                inputs2 = set(re.findall(r"^\s*input\s+(?:wire\s+)?(?:signed\s+)?(?:\[[^\]]+\]\s+)?([A-Za-z_][A-Za-z0-9_$]*)", t2, re.M))
+                lhs2 = re.findall(r"^\s*assign\s+([A-Za-z_][A-Za-z0-9_$]*)\s*=", t2, re.M)
+                checks += 2
+                if set(lhs2) & inputs2:
+                    V("duplicate_identifier", "design #%d wrapper" % di, "input port(s) %s of the second netlist are assigned inside it: an internal signal is printed under the port's identifier"
+                      % sorted(set(lhs2) & inputs2))
+                twice = sorted({x for x in lhs2 if lhs2.count(x) > 1})
+                if twice:
+                    V("duplicate_identifier", "design #%d wrapper" % di, "net(s) %s driven by several continuous assignments in the second netlist: two signals share one identifier" % twice)
             for k in (1, 2):
                 checks += 1
                 if outs[k][di].get("text2") != t2:
